@@ -688,6 +688,7 @@ type Engine struct {
 	root      *ssa.Function
 	defined   map[string]bool // spec functions already turned into define-fun
 	trustedUsed map[string]bool
+	contractsUsed map[string]bool // contracts applied at call sites during this run
 	inlineAll bool
 	loadedPkgs []*packages.Package
 	neverWritten map[*ssa.Global]bool
